@@ -55,6 +55,8 @@ struct Tracker<K> {
 
 impl<K> Drop for Tracker<K> {
     fn drop(&mut self) {
+        #[cfg(tarpc_verif)]
+        crate::verif::yield_point("tracker_drop:before_send");
         // Don't care if the listener is dropped.
         let _ = self.dropped_keys.send(self.key.take().unwrap());
     }
